@@ -3,6 +3,6 @@
 cd "$(dirname "$0")"
 mkdir -p /var/tmp/c02harv
 for s in "$@"; do
-  VERIF_SEED=$s VERIF_WORKERS=${VERIF_WORKERS:-14} VERIF_OUT=/var/tmp/c02harv ./check C02 --tier quick > /var/tmp/c02h.$s.log 2>&1
+  VERIF_C02_FRESH=1 VERIF_SEED=$s VERIF_WORKERS=${VERIF_WORKERS:-14} VERIF_OUT=/var/tmp/c02harv ./check C02 --tier quick > /var/tmp/c02h.$s.log 2>&1
   echo "seed $s exit $? $(grep -c '^  violation' /var/tmp/c02h.$s.log) unlisted"
 done
